@@ -1,11 +1,11 @@
 SPECIFICATION Spec
 CONSTANTS
-  MaxScopes = 4
+  MaxScopes = 3
   MaxDecls = 2
   MaxRefs = 2
-  Names <- NameSet
+  Names <- Three
   Hows <- HowAll
   Positions <- Pos1
-  DumpMod = 3
+  DumpMod = 40
 INVARIANT SiblingsDoNotShadow
 CONSTRAINT Dump
